@@ -82,11 +82,30 @@ func varTypeGuard(c *ctx) string {
 	return "true"
 }
 
+// fieldPosAfterLookahead: does exeParser.readField build the field's location from the counters as they stand
+// after readToken (`col: p.col - len(token)`), or from values sampled before the token is read?
+func fieldPosAfterLookahead(c *ctx) string {
+	fd := c.funcs["exeParser.readField"]
+	if fd == nil {
+		return unknown("readField", "exeparser.go")
+	}
+	src := c.src(fd.Body)
+	switch {
+	case strings.Contains(src, "col: p.col - len(token)"):
+		return "true"
+	case strings.Contains(src, "line, col := p.line, p.col") && strings.Contains(src, "SelBase{line: line, col: col}") &&
+		strings.Index(src, "line, col := p.line, p.col") < strings.Index(src, "p.readToken()"):
+		return "false"
+	}
+	return unknown("readField position", c.pos(fd))
+}
+
 func genParse(c *ctx) string {
 	var b strings.Builder
 	b.WriteString("namespace Ggql.Gen\n")
 	fmt.Fprintf(&b, "def sdlEmptyTokenSpins : Bool := %s\n", emptyTokenGuard(c))
 	fmt.Fprintf(&b, "def exeVarTypeOptional : Bool := %s\n", varTypeGuard(c))
+	fmt.Fprintf(&b, "def fieldPosAfterLookahead : Bool := %s\n", fieldPosAfterLookahead(c))
 	type ent struct{ name, h string }
 	var ents []ent
 	for name, fd := range c.funcs {
